@@ -7,6 +7,7 @@ import DryocVerif.Spec.Salsa20
 import DryocVerif.Model.Curve
 import DryocVerif.Model.CurveInst
 import DryocVerif.Model.Sign
+import DryocVerif.Model.ObjectView
 open DryocVerif
 namespace Driver.Curve
 
@@ -83,6 +84,18 @@ def handle (op : String) (args : List String) : Option Ans :=
     match op, args with
     | "kdf", n :: rest =>
       match n.toNat?, hexArgs rest with
+      | some n, some [id, ctx, key] =>
+        some (outBytes (Model.Curve.kdfDerive P n (le id) ctx key),
+              if n < 16 ∨ 64 < n then "err" else okHex (Spec.Blake2b.hashSP n key (id ++ zeros 8) (ctx ++ zeros 8) []))
+      | _, _ => none
+    -- `kdf_obj_vec <id> <ctx> <key>`: `Kdf<Vec<u8>, Vec<u8>>::derive_subkey` (`Model.ObjectView.kdfObjDerive`: prefix views, panic when short)
+    | "kdf_obj_vec", rest =>
+      match hexArgs rest with
+      | some [id, ctx, key] => some (outBytes (Model.ObjectView.kdfObjDerive (le id) ctx key), "n/a")
+      | _ => none
+    -- `kdf_after_failed_final <len> <id> <ctx> <key> <nbuf> <bad>`: the function shares no state with other hashing: answer of `kdf`
+    | "kdf_after_failed_final", n :: rest =>
+      match n.toNat?, hexArgs (rest.take 3) with
       | some n, some [id, ctx, key] =>
         some (outBytes (Model.Curve.kdfDerive P n (le id) ctx key),
               if n < 16 ∨ 64 < n then "err" else okHex (Spec.Blake2b.hashSP n key (id ++ zeros 8) (ctx ++ zeros 8) []))
